@@ -62,6 +62,7 @@ AVOID_MAP = {
         "conditional-operator-arms-not-promoted")),
     "enumerator-operand-gives-enum-typed-arithmetic": ((), ("enumerator-operand-gives-enum-typed-arithmetic",)),
     "address-constant-with-offset-not-implemented": (("address-constant-with-offset",), ()),
+    "string-literal-for-nested-char-array": ((), ("string-literal-for-nested-char-array",)),
     "unnamed-bitfield-asserts-in-layout-struct": (("unnamed-bitfield",), ()),
     "x86-64-selector-no-pattern-for-narrow-int-op": (
         ("narrow-int-mul-div-neg-and-float-casts",), ("narrow-int-mul-div-neg-and-float-casts",)),
@@ -82,7 +83,7 @@ def EXHAUSTIVE(tier):
 
 def plan(tier, seed, avoid):
     if tier == "quick":
-        n = {"c": (14, 20), "cx": (2, 200), "c3": (4, 40), "ir": (4, 40)}
+        n = {"c": (14, 20), "cx": (2, 300), "c3": (4, 40), "ir": (4, 40)}
     else:
         n = {"c": (32, 250), "cx": (8, 2000), "c3": (12, 400), "ir": (12, 400)}
     specs = []
@@ -307,6 +308,9 @@ FREEZE_WITNESS = ("static int fn3(long long p0) { } static long fn7(signed char 
                   "switch (p6) { case 8: ; } } while (((!8) != (!3))); } }")
 
 PROBES = {
+    "string-literal-for-nested-char-array": lambda: _any(
+        _c, 'struct M { char s[3]; } g = {"ab"};', 'char a[2][3] = {"ab", "cd"};',
+        'void f(void) { struct M { char s[3]; } l = {"ab"}; }'),
     "x86-64-register-allocator-freeze-moves-assertion": lambda: _c(FREEZE_WITNESS, 2),
     "consteval-operators-missing": lambda: _any(_c, "int a = 7 % 3;", "int a = 1 < 2;", "int a = !5;",
                                                 "int a = 1 ? 2 : 3;", "int a = 0 && 1 / 0;"),
